@@ -13,8 +13,7 @@
     G <templates|variables|types|status|console>        | <status> <count>
   Output lines:
     MISMATCH line=<n> case=<k> what=<result|log|grant|access> impl=<...> model=<...>
-    SPECFAIL line=<n> case=<k> clause=<name> [stale=1]     stale=1: a permission filter of the case reads `service`
-                                                           and the request is over Host and Service (shape of F-C18a)
+    SPECFAIL line=<n> case=<k> clause=<name>
     BADLINE line=<n>
     STATS cases=.. steps=.. ...
 -/
@@ -172,11 +171,11 @@ structure DSt where
   orderPairsMixed : Nat := 0     -- ... where the outcome was an error or the permission filter is not null
   inv : List Obj := []
   user : User := []
-  /-- some permission filter of the case reads `service` (F-C18a is possible) -/
+  /-- some permission filter of the case reads `service` (the shape of the former finding F-C18a) -/
   readsService : Bool := false
-  /-- VERIF_C18_FRESH_FRAME=1: compare against the model of the repaired code (fresh permission frame per object) -/
-  freshFrame : Bool := false
-  staleSpecfails : Nat := 0
+  readsServiceQueries : Nat := 0
+  /-- VERIF_C18_SHARED_FRAME=1: compare against the variant before bce4be0 (one permission namespace per request) -/
+  sharedFrame : Bool := false
   caseNo : Nat := 0
   steps : Nat := 0
   nM : Nat := 0
@@ -285,11 +284,11 @@ def handleQ (d : DSt) (n : Nat) (pre post : List String) : IO DSt := do
       match ires, ufilter, parseLog ilog with
       | some ires, some uf, some plog =>
         let q : Query := { q0 with typeValid := tv == "1", filter := uf }
-        let qd : QD := { types := types, permission := perm, cfgProvider := prov == "c", sharedFrame := !d.freshFrame }
-        let stale := d.readsService && types.contains "Host" && types.contains "Service"
-        let tag := if stale then " stale=1" else ""
-        let out := filterTargets d.user qd q d.inv
+        let qd : QD := { types := types, permission := perm, cfgProvider := prov == "c" }
+        let out := filterTargetsWith d.sharedFrame d.user qd q d.inv
         let mut d := { d with steps := d.steps + 1, nQ := d.nQ + 1, caseHash := mixHash d.caseHash (hash (" ".intercalate pre)) }
+        if d.readsService && types.length > 1 && (!q.single.isEmpty || !q.plural.isEmpty) then
+          d := { d with readsServiceQueries := d.readsServiceQueries + 1 }
         let ishow := showResult ires
         let mshow := showResult out.result
         if ishow != mshow then
@@ -302,7 +301,7 @@ def handleQ (d : DSt) (n : Nat) (pre post : List String) : IO DSt := do
         let obs : Obs := { result := ires, log := plog }
         match specQuery d.user qd q d.inv obs with
         | some cl =>
-          IO.println s!"SPECFAIL line={n} case={d.caseNo} clause={cl.name}{tag}"
+          IO.println s!"SPECFAIL line={n} case={d.caseNo} clause={cl.name}"
           d := { d with specfails := d.specfails + 1 }
         | none => pure ()
         -- visit-order independence, on the implementation's observations
@@ -313,7 +312,7 @@ def handleQ (d : DSt) (n : Nat) (pre post : List String) : IO DSt := do
           if !(permissionFilters d.user perm).isEmpty then d := { d with orderPairsMixed := d.orderPairsMixed + 1 }
           match specOrder prev ires with
           | some cl =>
-            IO.println s!"SPECFAIL line={n} case={d.caseNo} clause={cl.name}{tag}"
+            IO.println s!"SPECFAIL line={n} case={d.caseNo} clause={cl.name}"
             d := { d with specfails := d.specfails + 1 }
           | none => pure ()
         | none => d := { d with seenOutcomes := (key, ires) :: d.seenOutcomes }
@@ -420,11 +419,9 @@ def handleH (d : DSt) (n : Nat) (pre post : List String) : IO DSt := do
         | some v => [("Service", dec v)]
         | none => []
       let q0 : Query := { single := svcName, plural := plural, filter := uf }
-      let qd0 := if isAction then actionQD verb else handlerQD verb type
-      let qd := { qd0 with sharedFrame := !d.freshFrame }
-      let tag := if d.readsService && isAction then " stale=1" else ""
+      let qd := if isAction then actionQD verb else handlerQD verb type
       let q := if isAction then actionQuery type pathName q0 else handlerQuery type pathName q0
-      let mres := (filterTargets d.user qd q d.inv).result
+      let mres := (filterTargetsWith d.sharedFrame d.user qd q d.inv).result
       let mstatus := if isAction then actionStatus mres else if verb == "delete" then deleteStatusNonApi mres else httpStatus mres
       let withResults := istatus == 200 || (verb == "delete" && istatus == 500)
       let mut d := { d with steps := d.steps + 1, nH := d.nH + 1,
@@ -449,7 +446,7 @@ def handleH (d : DSt) (n : Nat) (pre post : List String) : IO DSt := do
       let bad := if withResults || istatus == 404 then specQuery d.user qd q d.inv obs else none
       match bad with
       | some cl =>
-        IO.println s!"SPECFAIL line={n} case={d.caseNo} clause={cl.name}{tag}"
+        IO.println s!"SPECFAIL line={n} case={d.caseNo} clause={cl.name}"
         d := { d with specfails := d.specfails + 1 }
       | none => pure ()
       if withResults || istatus == 404 then
@@ -459,7 +456,7 @@ def handleH (d : DSt) (n : Nat) (pre post : List String) : IO DSt := do
           d := { d with orderPairs := d.orderPairs + 1 }
           match specOrder prev obs.result with
           | some cl =>
-            IO.println s!"SPECFAIL line={n} case={d.caseNo} clause={cl.name}{tag}"
+            IO.println s!"SPECFAIL line={n} case={d.caseNo} clause={cl.name}"
             d := { d with specfails := d.specfails + 1 }
           | none => pure ()
         | none => d := { d with seenOutcomes := (key, obs.result) :: d.seenOutcomes }
@@ -529,7 +526,7 @@ def handle (d : DSt) (n : Nat) (line : String) : IO DSt := do
 
 def main : IO Unit := do
   let stdin ← IO.getStdin
-  let fresh := (← IO.getEnv "VERIF_C18_FRESH_FRAME") == some "1"
-  let d ← foldLines stdin handle ({ freshFrame := fresh } : DSt)
+  let shared := (← IO.getEnv "VERIF_C18_SHARED_FRAME") == some "1"
+  let d ← foldLines stdin handle ({ sharedFrame := shared } : DSt)
   let d := closeCase d
-  IO.println s!"STATS cases={d.caseNo} steps={d.steps} matches={d.nM} matches_granted={d.nMgranted} queries={d.nQ} access={d.nA} http={d.nH} http_200={d.h200} http_404={d.h404} http_actions={d.hActions} http_deletes={d.hDeletes} handlers={d.nG} handlers_200={d.g200} handlers_compared={d.gCompared} join_shown={d.hJoinShown} join_hidden={d.hJoinHidden} order_pairs={d.orderPairs} order_pairs_filtered={d.orderPairsMixed} ok_nonempty={d.okNonEmpty} ok_empty={d.okEmpty} err_perm={d.errPerm} err_denied={d.errDenied} err_notfound={d.errNotFound} err_type={d.errType} err_other={d.errOther} path_single={d.pathSingle} path_plural={d.pathPlural} path_filter_eval={d.pathFilterEval} path_fast={d.pathFast} path_all={d.pathAll} perm_filtered={d.permFiltered} multi_match={d.multiMatch} mixed_match={d.mixedMatch} filtered_out={d.filteredOut} nontrivial={d.nontrivial} mismatches={d.mismatches} specfails={d.specfails} badlines={d.badlines}"
+  IO.println s!"STATS cases={d.caseNo} steps={d.steps} matches={d.nM} matches_granted={d.nMgranted} queries={d.nQ} access={d.nA} http={d.nH} http_200={d.h200} http_404={d.h404} http_actions={d.hActions} http_deletes={d.hDeletes} handlers={d.nG} handlers_200={d.g200} handlers_compared={d.gCompared} join_shown={d.hJoinShown} join_hidden={d.hJoinHidden} order_pairs={d.orderPairs} service_reading_two_type_named={d.readsServiceQueries} order_pairs_filtered={d.orderPairsMixed} ok_nonempty={d.okNonEmpty} ok_empty={d.okEmpty} err_perm={d.errPerm} err_denied={d.errDenied} err_notfound={d.errNotFound} err_type={d.errType} err_other={d.errOther} path_single={d.pathSingle} path_plural={d.pathPlural} path_filter_eval={d.pathFilterEval} path_fast={d.pathFast} path_all={d.pathAll} perm_filtered={d.permFiltered} multi_match={d.multiMatch} mixed_match={d.mixedMatch} filtered_out={d.filteredOut} nontrivial={d.nontrivial} mismatches={d.mismatches} specfails={d.specfails} badlines={d.badlines}"
